@@ -42,7 +42,7 @@ Qed.
 Lemma live_put_keep : forall s d d' c,
   NoDup (map d_id (s_data s)) -> find_ds (d_id d') (s_data s) = Some d ->
   live s c ->
-  (d_member d = true -> In c (d_own d) -> d_member d' = true /\ In c (d_own d')) ->
+  (d_member d = true -> In c (comps d) -> d_member d' = true /\ In c (comps d')) ->
   live (set_data s (put_ds d' (s_data s))) c.
 Proof.
   intros s d d' c Hnd Hf Hl Hkeep.
@@ -68,10 +68,83 @@ Lemma all_links_live : forall s l, wf s -> In l (all_links s) -> forall x, In x 
 Proof.
   intros s l (Hnd & Hds & Hext & Herr) Hl x Hx.
   apply in_all_links in Hl. destruct Hl as [[y [Hy [Hm Hly]]]|[e [He Hle]]].
-  - destruct (Hds y Hy) as (Hown & Hco & Hint & _). destruct (Hint l Hly) as (_ & Hfr & Hto).
-    exists y. repeat split; auto. apply Hco. destruct Hx as [Hx|Hx]; subst; auto.
+  - destruct (ds_link_shape y l (Hds y Hy) Hly) as (_ & Hin & _).
+    exists y. repeat split; auto.
   - apply in_entry_links in Hle. destruct Hle as [p [Hp Hl]].
     apply (Hext e He p x Hp). apply (entry_link_cids e p l Hp Hl). exact Hx.
+Qed.
+
+(* ------------------------------------------------------------------ removing attributes (with the cascade) *)
+Lemma der_hit_false : forall cs l, der_hit cs l = false ->
+  (forall f, In f (l_from l) -> ~ In f cs) /\ ~ In (l_to l) cs.
+Proof.
+  intros cs l H. unfold der_hit in H. apply orb_false_iff in H. destruct H as [H1 H2]. split.
+  - intros f Hf Hc. assert (existsb (fun c => mem c (l_from l)) cs = true); [|congruence].
+    apply existsb_exists. exists f. split; auto. apply mem_In. exact Hf.
+  - apply mem_false. exact H2.
+Qed.
+
+Lemma keep_der_in : forall cs d l, In l (keep_der cs d) <-> In l (d_der d) /\ der_hit cs l = false.
+Proof. intros cs d l. unfold keep_der. rewrite filter_In, negb_true_iff. tauto. Qed.
+
+Lemma removed_cs : forall cs d c, In c cs -> In c (removed_cids cs d).
+Proof. intros cs d c H. unfold removed_cids. apply in_app_iff. auto. Qed.
+
+Lemma removed_der : forall cs d l, In l (d_der d) -> der_hit cs l = true -> In (l_to l) (removed_cids cs d).
+Proof.
+  intros cs d l Hl Hh. unfold removed_cids. apply in_app_iff. right. apply in_map. apply filter_In. auto.
+Qed.
+
+(* an attribute that is not among the removed ones is still a component afterwards *)
+Lemma comps_keep : forall cs d d' c,
+  d_own d' = remove_cids cs (d_own d) -> d_der d' = keep_der cs d ->
+  In c (comps d) -> ~ In c (removed_cids cs d) -> In c (comps d').
+Proof.
+  intros cs d d' c Eo Ed Hc Hn. unfold comps, der_cids in *. rewrite Eo, Ed.
+  apply in_app_iff in Hc. apply in_app_iff. destruct Hc as [Hc|Hc].
+  - left. apply in_remove_cids. split; auto. intros Hcs. apply Hn. apply removed_cs. exact Hcs.
+  - right. apply in_map_iff in Hc. destruct Hc as [l [El Hl]]. subst c.
+    apply in_map. apply keep_der_in. split; auto.
+    destruct (der_hit cs l) eqn:Eh; auto. exfalso. apply Hn. apply removed_der; auto.
+Qed.
+
+Lemma comps_sub : forall cs d d' c,
+  d_own d' = remove_cids cs (d_own d) -> d_der d' = keep_der cs d -> In c (comps d') -> In c (comps d).
+Proof.
+  intros cs d d' c Eo Ed Hc. unfold comps, der_cids in *. rewrite Eo, Ed in Hc.
+  apply in_app_iff in Hc. apply in_app_iff. destruct Hc as [Hc|Hc].
+  - left. apply in_remove_cids in Hc. tauto.
+  - right. apply in_map_iff in Hc. destruct Hc as [l [El Hl]]. subst c. apply in_map. apply keep_der_in in Hl. tauto.
+Qed.
+
+Lemma ds_wf_remove : forall d d' cs,
+  ds_wf d -> d_id d' = d_id d -> d_member d' = d_member d -> d_hub d' = d_hub d ->
+  d_own d' = remove_cids cs (d_own d) -> d_der d' = keep_der cs d ->
+  incl (d_coord d') (d_own d') ->
+  (forall l, In l (d_int d') -> l_from l <> [] /\ incl (l_from l) (d_coord d') /\ In (l_to l) (d_coord d')) ->
+  ds_wf d'.
+Proof.
+  intros d d' cs (Hown & Hco & Hint & Hder & Hhub) E1 E2 E3 Eo Ed Hco' Hint'.
+  unfold ds_wf. rewrite E1, E2, E3. split; [|split; [|split; [|split]]]; auto.
+  - intros c Hc. apply Hown. apply (comps_sub cs d d' c Eo Ed Hc).
+  - intros l Hl. rewrite Ed in Hl. apply keep_der_in in Hl. destruct Hl as [Hl Hh].
+    destruct (Hder l Hl) as (Hnn & Hfr). split; auto.
+    intros f Hf. rewrite Eo. apply in_remove_cids. split. { apply Hfr. exact Hf. }
+    apply (proj1 (der_hit_false cs l Hh) f Hf).
+Qed.
+
+(* the registered links that survive drop_links are live in the state after the removal *)
+Lemma live_after_remove : forall s d d' cs e,
+  wf s -> find_ds (d_id d') (s_data s) = Some d -> d_member d' = d_member d ->
+  d_own d' = remove_cids cs (d_own d) -> d_der d' = keep_der cs d ->
+  In e (s_ext s) -> entry_touches_any (removed_cids cs d) e = false ->
+  entry_live (set_data s (put_ds d' (s_data s))) e.
+Proof.
+  intros s d d' cs e (Hnd & Hds & Hext & Herr) Hf Em Eo Ed He Ht p c0 Hp Hc0.
+  apply (live_put_keep s d d' c0 Hnd Hf). { apply (Hext e He p c0 Hp Hc0). }
+  intros Hm Hin. split. { congruence. }
+  apply (comps_keep cs d d' c0 Eo Ed Hin).
+  intros Hr. rewrite (entry_touches_any_intro (removed_cids cs d) e p c0 Hp Hc0 Hr) in Ht. discriminate.
 Qed.
 
 (* ------------------------------------------------------------------ one operation *)
@@ -111,7 +184,7 @@ Qed.
 Lemma step_good : forall s o, Good s -> valid_op s o -> Good (fst (step s o)).
 Proof.
   intros s o HG Hv. pose proof HG as [Hwf Hfr]. pose proof Hwf as (Hnd & Hds & Hext & Herr).
-  destruct o as [e|i|es|i c|i c|i|i|i| |]; simpl in Hv |- *.
+  destruct o as [e|i|es|i c|i c|i l|i|i|i| |]; simpl in Hv |- *.
   - (* AddLink *)
     destruct (add_one e (s_ext s)) as [ext' code] eqn:Ea.
     destruct (Nat.eqb (length ext') (length (s_ext s))); simpl; auto.
@@ -130,56 +203,97 @@ Proof.
     destruct Hx' as [Hx'|Hx']; [contradiction|]. apply (Hlive x Hx').
   - (* AddComponent *)
     destruct (find_ds i (s_data s)) as [d|] eqn:Ef; simpl; auto.
-    destruct (mem c (d_own d) || negb (Z.eqb (fst c) i)) eqn:Ec; simpl; auto.
+    destruct (mem c (comps d) || negb (Z.eqb (fst c) i)) eqn:Ec; simpl; auto.
     apply orb_false_iff in Ec. destruct Ec as [Ec1 Ec2]. apply negb_false_iff, Z.eqb_eq in Ec2.
     destruct (find_ds_some _ _ _ Ef) as [Hd Hid].
-    set (d' := mkds (d_id d) (d_member d) (d_hub d) (d_n d) (d_own d ++ [c]) (d_coord d) (d_world d) (d_int d) (d_tbl d)).
+    set (d' := mkds (d_id d) (d_member d) (d_hub d) (d_n d) (d_own d ++ [c]) (d_coord d) (d_world d) (d_int d) (d_der d) (d_tbl d)).
     assert (Hf' : find_ds (d_id d') (s_data s) = Some d) by (simpl; rewrite Hid; exact Ef).
+    assert (Hsub : forall x, In x (comps d) -> In x (comps d')).
+    { intros x Hx. unfold comps in *. simpl. apply in_app_iff in Hx. rewrite !in_app_iff. tauto. }
     assert (Hwf' : ds_wf d').
-    { destruct (Hds d Hd) as (Hown & Hco & Hint & Hhub). unfold ds_wf. simpl. split; [|split; [|split]]; auto.
-      - intros c0 Hc0. apply in_app_iff in Hc0. destruct Hc0 as [Hc0|[Hc0|[]]]; auto. subst c0. congruence.
-      - apply incl_appl. exact Hco. }
+    { destruct (Hds d Hd) as (Hown & Hco & Hint & Hder & Hhub). unfold ds_wf. simpl.
+      split; [|split; [|split; [|split]]]; auto.
+      - intros c0 Hc0. unfold comps in Hc0. simpl in Hc0. rewrite !in_app_iff in Hc0.
+        destruct Hc0 as [[Hc0|[Hc0|[]]]|Hc0].
+        + apply Hown. unfold comps. apply in_app_iff. auto.
+        + subst c0. congruence.
+        + apply Hown. unfold comps. apply in_app_iff. auto.
+      - apply incl_appl. exact Hco.
+      - intros l Hl. destruct (Hder l Hl) as (Hnn & Hfrm). split; auto. apply incl_appl. exact Hfrm. }
     destruct (d_hub d && d_member d) eqn:Ehm.
     + apply sync_good.
       destruct (wf_set_data s d d' Hwf Hf' Hwf') as (N1 & N2 & N3).
       unfold wf. split; [|split; [|split]]; auto.
       intros e He p c0 Hp Hc0. apply (live_put_keep s d d' c0 Hnd Hf'). { apply (Hext e He p c0 Hp Hc0). }
-      intros Hm Hin. simpl. split; auto. apply in_app_iff. auto.
+      intros Hm Hin. split; auto.
     + assert (Hm : d_member d = false).
-      { destruct (d_member d) eqn:Em; auto. destruct (Hds d Hd) as (_ & _ & _ & Hhub).
+      { destruct (d_member d) eqn:Em; auto. destruct (Hds d Hd) as (_ & _ & _ & _ & Hhub).
         rewrite (Hhub Em) in Ehm. discriminate. }
       apply (good_nonmember_put s d d' HG Hf' Hwf' Hm). simpl. exact Hm.
   - (* RemoveComponent *)
     destruct (find_ds i (s_data s)) as [d|] eqn:Ef; simpl; auto.
-    destruct (negb (mem c (d_own d))) eqn:Ec; simpl; auto.
+    destruct (negb (mem c (comps d))) eqn:Ec; simpl; auto.
     destruct (find_ds_some _ _ _ Ef) as [Hd Hid].
     pose proof (Hv d eq_refl) as Hnc.
-    set (d' := mkds (d_id d) (d_member d) (d_hub d) (d_n d) (remove_cids [c] (d_own d)) (d_coord d) (d_world d) (d_int d) (d_tbl d)).
+    set (d' := mkds (d_id d) (d_member d) (d_hub d) (d_n d) (remove_cids [c] (d_own d)) (d_coord d) (d_world d) (d_int d)
+                    (keep_der [c] d) (d_tbl d)).
     assert (Hf' : find_ds (d_id d') (s_data s) = Some d) by (simpl; rewrite Hid; exact Ef).
     assert (Hwf' : ds_wf d').
-    { destruct (Hds d Hd) as (Hown & Hco & Hint & Hhub). unfold ds_wf. simpl. split; [|split; [|split]]; auto.
-      - intros c0 Hc0. apply in_remove_cids in Hc0. apply Hown. tauto.
-      - intros x Hx. apply in_remove_cids. split; auto. simpl. intros [E|[]]. subst. contradiction. }
+    { destruct (Hds d Hd) as (Hown & Hco & Hint & Hder & Hhub).
+      apply (ds_wf_remove d d' [c] (Hds d Hd)); auto; simpl.
+      intros x Hx. apply in_remove_cids. split; auto. simpl. intros [E|[]]. subst. contradiction. }
     destruct (d_member d) eqn:Em.
-    + (* a member: it has a hub *)
-      destruct (Hds d Hd) as (_ & _ & _ & Hhub). rewrite (Hhub Em).
+    + destruct (Hds d Hd) as (_ & _ & _ & _ & Hhub). rewrite (Hhub Em).
       destruct (wf_set_data s d d' Hwf Hf' Hwf') as (N1 & N2 & N3).
       apply sync_good. apply drop_links_wf; auto.
-      intros e He Ht p c0 Hp Hc0. apply (live_put_keep s d d' c0 Hnd Hf'). { apply (Hext e He p c0 Hp Hc0). }
-      intros _ Hin. simpl. split; auto. apply in_remove_cids. split; auto.
-      simpl. intros [E|[]]. subst c0.
-      rewrite (entry_touches_any_intro [c] e p c Hp Hc0) in Ht; [discriminate|simpl; auto].
+      intros e He Ht. apply (live_after_remove s d d' [c] e Hwf Hf'); auto.
     + destruct (d_hub d).
-      * apply (good_drop_nonmember s d d' [c] HG Hf' Hwf' Em). reflexivity.
+      * apply (good_drop_nonmember s d d' (removed_cids [c] d) HG Hf' Hwf' Em). reflexivity.
       * apply (good_nonmember_put s d d' HG Hf' Hwf' Em). reflexivity.
+  - (* AddDerived *)
+    destruct (find_ds i (s_data s)) as [d|] eqn:Ef; simpl; auto.
+    destruct (mem (l_to l) (comps d) || negb (Z.eqb (fst (l_to l)) i)
+              || match l_from l with [] => true | _ :: _ => false end
+              || negb (forallb (fun f => mem f (d_own d)) (l_from l))) eqn:Ec; simpl; auto.
+    apply orb_false_iff in Ec. destruct Ec as [Ec Ec4].
+    apply orb_false_iff in Ec. destruct Ec as [Ec Ec3].
+    apply orb_false_iff in Ec. destruct Ec as [Ec1 Ec2].
+    apply negb_false_iff, Z.eqb_eq in Ec2. apply negb_false_iff in Ec4.
+    destruct (find_ds_some _ _ _ Ef) as [Hd Hid].
+    set (d' := mkds (d_id d) (d_member d) (d_hub d) (d_n d) (d_own d) (d_coord d) (d_world d) (d_int d) (d_der d ++ [l]) (d_tbl d)).
+    assert (Hf' : find_ds (d_id d') (s_data s) = Some d) by (simpl; rewrite Hid; exact Ef).
+    assert (Hsub : forall x, In x (comps d) -> In x (comps d')).
+    { intros x Hx. unfold comps, der_cids in *. simpl. rewrite map_app. apply in_app_iff in Hx. rewrite !in_app_iff. tauto. }
+    assert (Hwf' : ds_wf d').
+    { destruct (Hds d Hd) as (Hown & Hco & Hint & Hder & Hhub). unfold ds_wf. simpl.
+      split; [|split; [|split; [|split]]]; auto.
+      - intros c0 Hc0. unfold comps, der_cids in Hc0. simpl in Hc0. rewrite map_app in Hc0. rewrite !in_app_iff in Hc0.
+        destruct Hc0 as [Hc0|[Hc0|[Hc0|[]]]].
+        + apply Hown. unfold comps. apply in_app_iff. auto.
+        + apply Hown. unfold comps. apply in_app_iff. auto.
+        + subst c0. congruence.
+      - intros l0 Hl0. apply in_app_iff in Hl0. destruct Hl0 as [Hl0|[Hl0|[]]]; auto.
+        subst l0. split.
+        + destruct (l_from l); [discriminate|]. discriminate.
+        + intros f Hf. rewrite forallb_forall in Ec4. apply mem_In. apply Ec4. exact Hf. }
+    destruct (d_hub d && d_member d) eqn:Ehm.
+    + apply sync_good.
+      destruct (wf_set_data s d d' Hwf Hf' Hwf') as (N1 & N2 & N3).
+      unfold wf. split; [|split; [|split]]; auto.
+      intros e He p c0 Hp Hc0. apply (live_put_keep s d d' c0 Hnd Hf'). { apply (Hext e He p c0 Hp Hc0). }
+      intros Hm Hin. split; auto.
+    + assert (Hm : d_member d = false).
+      { destruct (d_member d) eqn:Em; auto. destruct (Hds d Hd) as (_ & _ & _ & _ & Hhub).
+        rewrite (Hhub Em) in Ehm. discriminate. }
+      apply (good_nonmember_put s d d' HG Hf' Hwf' Hm). simpl. exact Hm.
   - (* AddData *)
     destruct (find_ds i (s_data s)) as [d|] eqn:Ef; simpl; auto.
     destruct (d_member d) eqn:Em; simpl; auto.
     destruct (find_ds_some _ _ _ Ef) as [Hd Hid].
-    set (d' := mkds (d_id d) true true (d_n d) (d_own d) (d_coord d) (d_world d) (d_int d) (d_tbl d)).
+    set (d' := mkds (d_id d) true true (d_n d) (d_own d) (d_coord d) (d_world d) (d_int d) (d_der d) (d_tbl d)).
     assert (Hf' : find_ds (d_id d') (s_data s) = Some d) by (simpl; rewrite Hid; exact Ef).
     assert (Hwf' : ds_wf d').
-    { destruct (Hds d Hd) as (Hown & Hco & Hint & Hhub). unfold ds_wf. simpl. split; [|split; [|split]]; auto. }
+    { destruct (Hds d Hd) as (Hown & Hco & Hint & Hder & Hhub). unfold ds_wf. simpl. split; [|split; [|split; [|split]]]; auto. }
     destruct (wf_set_data s d d' Hwf Hf' Hwf') as (N1 & N2 & N3).
     apply sync_good. unfold wf. split; [|split; [|split]]; auto.
     intros e He p c0 Hp Hc0. apply (live_put_keep s d d' c0 Hnd Hf'). { apply (Hext e He p c0 Hp Hc0). }
@@ -188,18 +302,18 @@ Proof.
     destruct (find_ds i (s_data s)) as [d|] eqn:Ef; simpl; auto.
     destruct (d_member d) eqn:Em; simpl; auto.
     destruct (find_ds_some _ _ _ Ef) as [Hd Hid].
-    set (d' := mkds (d_id d) false (d_hub d) (d_n d) (d_own d) (d_coord d) (d_world d) (d_int d) (d_tbl d)).
+    set (d' := mkds (d_id d) false (d_hub d) (d_n d) (d_own d) (d_coord d) (d_world d) (d_int d) (d_der d) (d_tbl d)).
     assert (Hf' : find_ds (d_id d') (s_data s) = Some d) by (simpl; rewrite Hid; exact Ef).
     assert (Hwf' : ds_wf d').
-    { destruct (Hds d Hd) as (Hown & Hco & Hint & Hhub). unfold ds_wf. simpl. split; [|split; [|split]]; auto. }
+    { destruct (Hds d Hd) as (Hown & Hco & Hint & Hder & Hhub). unfold ds_wf. simpl. split; [|split; [|split; [|split]]]; auto. }
     destruct (wf_set_data s d d' Hwf Hf' Hwf') as (N1 & N2 & N3).
     set (s1 := set_data s (put_ds d' (s_data s))) in *.
     split.
     + apply drop_links_wf; auto.
       intros e He Ht p c0 Hp Hc0. apply (live_put_keep s d d' c0 Hnd Hf'). { apply (Hext e He p c0 Hp Hc0). }
-      intros _ Hin. rewrite (entry_touches_any_intro (d_own d) e p c0 Hp Hc0 Hin) in Ht. discriminate.
+      intros _ Hin. rewrite (entry_touches_any_intro (comps d) e p c0 Hp Hc0 Hin) in Ht. discriminate.
     + intros Hdl. rewrite drop_links_delay in Hdl.
-      destruct (drop_links_cases (d_own d) s1) as [[E Hno]|E]; rewrite E.
+      destruct (drop_links_cases (comps d) s1) as [[E Hno]|E]; rewrite E.
       * apply (fresh_remove_data s d d' Hwf Hf' Em eq_refl Hno). apply Hfr. exact Hdl.
       * apply recompute_fresh.
   - (* SetCoordsNone *)
@@ -207,22 +321,21 @@ Proof.
     destruct (d_world d) as [|w0 wr] eqn:Ew; simpl; auto.
     destruct (find_ds_some _ _ _ Ef) as [Hd Hid].
     set (w := w0 :: wr) in *.
-    set (d' := mkds (d_id d) (d_member d) (d_hub d) (d_n d) (remove_cids w (d_own d)) (remove_cids w (d_coord d)) [] [] (d_tbl d)).
+    set (d' := mkds (d_id d) (d_member d) (d_hub d) (d_n d) (remove_cids w (d_own d)) (remove_cids w (d_coord d)) [] []
+                    (keep_der w d) (d_tbl d)).
     assert (Hf' : find_ds (d_id d') (s_data s) = Some d) by (simpl; rewrite Hid; exact Ef).
     assert (Hwf' : ds_wf d').
-    { destruct (Hds d Hd) as (Hown & Hco & Hint & Hhub). unfold ds_wf. simpl. split; [|split; [|split]]; auto.
-      - intros c0 Hc0. apply in_remove_cids in Hc0. apply Hown. tauto.
+    { destruct (Hds d Hd) as (Hown & Hco & Hint & Hder & Hhub).
+      apply (ds_wf_remove d d' w (Hds d Hd)); auto; simpl.
       - intros x Hx. apply in_remove_cids in Hx. apply in_remove_cids. split; [apply Hco|]; tauto.
-      - intros l []. }
+      - intros l0 []. }
     destruct (d_member d) eqn:Em.
-    + destruct (Hds d Hd) as (_ & _ & _ & Hhub). rewrite (Hhub Em).
+    + destruct (Hds d Hd) as (_ & _ & _ & _ & Hhub). rewrite (Hhub Em).
       destruct (wf_set_data s d d' Hwf Hf' Hwf') as (N1 & N2 & N3).
       apply sync_good. apply drop_links_wf; auto.
-      intros e He Ht p c0 Hp Hc0. apply (live_put_keep s d d' c0 Hnd Hf'). { apply (Hext e He p c0 Hp Hc0). }
-      intros _ Hin. simpl. split; auto. apply in_remove_cids. split; auto.
-      intros Hw. rewrite (entry_touches_any_intro w e p c0 Hp Hc0 Hw) in Ht. discriminate.
+      intros e He Ht. apply (live_after_remove s d d' w e Hwf Hf'); auto.
     + destruct (d_hub d).
-      * apply (good_drop_nonmember s d d' w HG Hf' Hwf' Em). reflexivity.
+      * apply (good_drop_nonmember s d d' (removed_cids w d) HG Hf' Hwf' Em). reflexivity.
       * apply (good_nonmember_put s d d' HG Hf' Hwf' Em). reflexivity.
   - (* DelayBegin *)
     split. { unfold wf. simpl. split; [|split; [|split]]; auto. } simpl. intros; discriminate.
@@ -267,28 +380,46 @@ Proof.
   - reflexivity.
 Qed.
 
-(* what a dataset of the collection can read is exactly what the links in force derive, with the composed value *)
+(* what a dataset of the collection can read is exactly what the links in force (its own derived-component links
+   included) derive from its main and coordinate attributes; the value is the composition along the stored tree, whose
+   height is the minimum one, with the dataset's own components (derived ones with their derived value) as leaves *)
 Theorem manager_reads_exactly : forall s0 ops,
   wf s0 -> (s_delay s0 = 0 -> fresh s0) -> valid_history s0 ops ->
   let s := run s0 ops in
   s_delay s = 0 ->
   forall d env c, In d (s_data s) -> d_member d = true ->
-    (read (d_own d) env (d_tbl d) c <> None <-> exists n, Derivable (d_own d) (all_links s) c n) /\
-    (forall v, read (d_own d) env (d_tbl d) c = Some v ->
-       exists k, DerivVal (d_own d) (all_links s) env c k v /\
+    (read_ds d env c <> None <-> exists n, Derivable (d_own d) (all_links s) c n) /\
+    (forall v, read_ds d env c = Some v ->
+       exists k, DerivVal (comps d) (all_links s) (der_env d env) c k v /\
+                 depth_of (d_own d) (d_tbl d) c = Some k /\
                  forall n, Derivable (d_own d) (all_links s) c n -> k <= n).
 Proof.
   intros s0 ops Hwf Hfr Hv s Hd d env c Hin Hm.
-  destruct (manager_inv_reachable s0 ops Hwf Hfr Hv) as [_ Hrest]. fold s in Hrest.
+  destruct (manager_inv_reachable s0 ops Hwf Hfr Hv) as [Hwfs Hrest]. fold s in Hwfs, Hrest.
   destruct (Hrest Hd) as [Hfresh _]. pose proof (Hfresh d Hin Hm) as Hdisc.
-  destruct (Lemmas2.discover_value _ _ env _ Hdisc c) as [Hsome Hnone].
+  destruct (discover_inv _ _ _ Hdisc) as [HI Hfix].
+  assert (Hinc : incl (d_own d) (comps d)). { intros x Hx. unfold comps. apply in_app_iff. auto. }
   destruct (depth_of (d_own d) (d_tbl d) c) as [k|] eqn:Ek.
-  - destruct (Hsome k eq_refl) as [v [Hr [Hdv Hmin]]]. split.
-    + split. { intros _. exists k. apply (DerivVal_Derivable _ _ _ _ _ _ Hdv). } intros _. congruence.
-    + intros v' Hv'. rewrite Hr in Hv'. inversion Hv'; subst v'. exists k. auto.
-  - destruct (Hnone eq_refl) as [Hr Hno]. split.
-    + split. { intros H. congruence. } intros [n Hn]. exfalso. apply (Hno n Hn).
-    + intros v' Hv'. congruence.
+  - destruct (read_correct_sup _ _ _ (comps d) (der_env d env) HI Hinc c k Ek) as [v [Hr Hdv]].
+    unfold read_ds. split.
+    + split. { intros _. exists k. apply (Inv_sound _ _ _ HI). exact Ek. } intros _. congruence.
+    + intros v' Hv'. rewrite Hr in Hv'. inversion Hv'; subst v'. exists k. repeat split; auto.
+      apply (Lemmas1.discover_min_depth _ _ _ Hdisc c k Ek).
+  - assert (Hnot : ~ In c (comps d)).
+    { intros Hc. unfold comps in Hc. apply in_app_iff in Hc. destruct Hc as [Hc|Hc].
+      - unfold depth_of in Ek. apply mem_In in Hc. rewrite Hc in Ek. discriminate.
+      - unfold der_cids in Hc. apply in_map_iff in Hc. destruct Hc as [l [El Hl]]. subst c.
+        destruct Hwfs as (_ & Hds & _). destruct (Hds d Hin) as (_ & _ & _ & Hder & _).
+        destruct (Hder l Hl) as (_ & Hfrm).
+        assert (HD : Derivable (d_own d) (all_links s) (l_to l) 1).
+        { apply D_link.
+          - apply in_all_links. left. exists d. repeat split; auto. unfold ds_links. apply in_app_iff. auto.
+          - intros f Hf. apply D_own. apply Hfrm. exact Hf. }
+        destruct (fix_complete _ _ _ Hfix _ _ HD) as [x [Hx _]]. congruence. }
+    unfold read_ds. rewrite (read_none_sup _ _ (comps d) (der_env d env) c Ek Hnot). split.
+    + split. { intros H. congruence. }
+      intros [n Hn]. exfalso. destruct (fix_complete _ _ _ Hfix _ _ Hn) as [x [Hx _]]. congruence.
+    + intros v' Hv'. discriminate.
 Qed.
 
 (* ------------------------------------------------------------------ re-exports for Property.v *)
